@@ -1,10 +1,12 @@
 #!/bin/bash
-# usage: harness/seedrun.sh <patch.diff> <check ids...>   [env SEED_IN_REPO=1 to apply to /repo itself]
+# usage: harness/seedrun.sh <patch.diff> <check ids...>   [env SEED_IN_REPO=1 to apply to /repo itself; SEED_SHARED=1 to run from /verif itself]
 # Applies a seeded change (to a scratch worktree of /repo by default), runs the given checks against it, prints their
-# VIOLATION lines and exit codes, and undoes the change.
+# VIOLATION lines and exit codes, and undoes the change.  By default the checks run from a private COPY of /verif (generated Coq files, build
+# output, evidence and replay files of the run stay in the copy), so several runs can go on at once without touching each other's coq/Gen files.
 set -u
 patch=$(readlink -f "$1"); shift
-cd /verif
+V=$(cd "$(dirname "$0")/.." && pwd)
+cd "$V"
 if [ "${SEED_IN_REPO:-0}" = "1" ]; then
   tree=/repo
   git -C /repo apply "$patch" || { echo "APPLY-FAILED"; exit 2; }
@@ -13,8 +15,13 @@ else
   git -C /repo worktree add -q --detach "$tree" HEAD || exit 2
   git -C "$tree" apply "$patch" || { echo "APPLY-FAILED"; git -C /repo worktree remove --force "$tree"; exit 2; }
 fi
+W=$V
+if [ "${SEED_SHARED:-0}" != "1" ] && [ "$tree" != /repo ]; then
+  W=$(mktemp -d /tmp/seedverif.XXXX)
+  tar -C "$V" --exclude=.git --exclude=seeded --exclude=refactorings --exclude=out --exclude=evidence_scratch -cf - . | tar -C "$W" -xf -
+fi
 for c in "$@"; do
-  out=$(PI2_REPO=$tree ./check "$c" quick 2>&1); rc=$?
+  out=$(cd "$W" && PI2_REPO=$tree ./check "$c" quick 2>&1); rc=$?
   echo "== $c rc=$rc"
   echo "$out" | grep -E "^VIOLATION|^KNOWN-FINDING|^\[" | cut -c1-220
   for f in $(echo "$out" | grep -oE "replay=[^ ]+" | cut -d= -f2); do
@@ -24,4 +31,4 @@ d=json.load(open('$f')); print('   ', d['signature'], '|', d['description'][:200
   done
 done
 if [ "$tree" = /repo ]; then git -C /repo checkout -- . ; else git -C /repo worktree remove --force "$tree"; fi
-rm -f /verif/out/*_violation_*.json
+if [ "$W" != "$V" ]; then rm -rf "$W"; else rm -f "$V"/out/*_violation_*.json; fi
